@@ -11,7 +11,8 @@ stdin : {"cases": [ {"gk": str, "members": [member, ...], "nmembers": [...], "cl
                    declared from it (one add_argument per leaf, a nested ActionParser per sub-group)
         cls_full = the class style's default= dict names every offered member (else only the overridden ones)
         inner_history = null | how the component parser of the inner-parser style was USED on its own before being
-                   attached (parse_env / parse_args_env / parse_args / help / defaults / dump; it then has
+                   attached (parse_env / parse_args_env / parse_args / help / defaults / dump / refused_attach = first offered
+                   to a parent that refuses it for conflicting keys; it then has
                    default_env=True, env_prefix="COMPONENT")
         ty    = "int" | "str" | "bool" | ["list", ty] | ["opt", ty]
         dflt  = {"nd": 1} (no default) | {"v": json value}
@@ -211,14 +212,24 @@ def add_each(p, prefix, fields):
         p.add_argument("--" + prefix + n, type=t, **kw)
 
 
-def use_standalone(parser, how):
+def use_standalone(parser, how, key="x"):
     """the construction HISTORY of the inner-parser style: the component parser was used on its own before it is
     attached under the key (a parse with environment parsing, a plain parse, its help rendered, its defaults read)"""
     import io
     from contextlib import redirect_stdout, redirect_stderr
     try:
         with redirect_stdout(io.StringIO()), redirect_stderr(io.StringIO()):
-            if how == "parse_env":
+            if how == "refused_attach":
+                # offered to another parent that already owns one of the prefixed option strings: the documented
+                # ValueError ("ActionParser conflicting keys"); the caller recovers and attaches it elsewhere
+                first = next(k for k in filter_default_actions(parser._option_string_actions) if k.startswith("--"))
+                other = ArgumentParser(exit_on_error=False)
+                other.add_argument("--" + key + "." + first[2:])
+                try:
+                    other.add_argument("--" + key, action=ActionParser(parser=parser))
+                except ValueError:
+                    pass
+            elif how == "parse_env":
                 parser.parse_env({})
             elif how == "parse_args_env":
                 parser.parse_args([], env=True)
@@ -266,10 +277,10 @@ def build(style, gk, members, nmembers, cls_full=False, history=None):
                 sp = ArgumentParser(exit_on_error=False, **kw)
                 add_each(sp, "", m[2])
                 if history:
-                    use_standalone(sp, history)
+                    use_standalone(sp, history, m[1])
                 ip.add_argument("--" + m[1], action=ActionParser(parser=sp))
         if history:
-            use_standalone(ip, history)
+            use_standalone(ip, history, gk)
         p.add_argument("--" + gk, action=ActionParser(parser=ip))
     return p
 
